@@ -305,7 +305,9 @@ class group_generic:
             'prev_ is None or prev_.is_whitespace == False',
         ]}}
     requires = []
-    ensures = []
+    # C13/C09 "for every input": whatever the arguments, the joiner does not leave before it has looked at the children
+    # (an early exit - a recursion-depth or size guard - leaves the constructs of that list ungrouped)
+    ensures = ['REACHED_LOOP(0) or len(old(tlist).tokens) == 0']
     raises = []
     serves = ['C03', 'C02', 'C07', 'C09', 'C13']
 
@@ -666,6 +668,101 @@ for _pass, _mk, _what, _ens in (
            'shape_case': True, 'serves': ['C12', 'C13']}
     REG.add('sqlparse.engine.grouping.' + _pass, 'shape: ' + _what, type('joiner_shape_' + _pass, (), _ns))
     JOINER_SHAPE_CASES.append(('sqlparse.engine.grouping.' + _pass, 'shape: ' + _what))
+
+
+def _shape_aliased_in_subquery(ex, st):
+    """SELECT * FROM Identifier[ Parenthesis[ ( SELECT ws Identifier[n] ws Identifier[a] ws FROM ws Identifier[t] ) ] ws AS ws
+    Identifier[q] ]  - what group_as has built when group_aliased runs"""
+    from contracts.sql import _mk_leaf, _mk_node, _ws1
+    T, sql = ex.W.T, ex.W.sql
+    n_, a_, t_, q_ = _name(ex, st, 'name'), _name(ex, st, 'alias'), _name(ex, st, 'tname2'), _name(ex, st, 'qname')
+    w1 = _ws1(ex, st, 'ws1')
+    lp = _mk_leaf(ex, st, None, 'lp', (T.Punctuation,), value='(')
+    rp = _mk_leaf(ex, st, None, 'rp', (T.Punctuation,), value=')')
+    sel = _mk_leaf(ex, st, None, 'kw_select2', (T.Keyword.DML,), normalized='SELECT')
+    frm = _mk_leaf(ex, st, None, 'kw_from2', (T.Keyword,), normalized='FROM')
+    askw = _mk_leaf(ex, st, None, 'kw_as', (T.Keyword,), normalized='AS')
+    star = _mk_leaf(ex, st, None, 'star', (T.Wildcard,), value='*')
+    inner = [lp, sel, _ws1(ex, st, 'wsi1'), _ident(ex, st, 'xident', [n_]), w1, _ident(ex, st, 'yident', [a_]),
+             _ws1(ex, st, 'wsi2'), frm, _ws1(ex, st, 'wsi3'), _ident(ex, st, 'tident2', [t_]), rp]
+    par = lambda g: _mk_node(ex, st, sql.Parenthesis, 'subquery', inner, g)    # noqa: E731
+    outer = lambda g: _mk_node(ex, st, sql.Identifier, 'derived', [par, _ws1(ex, st, 'wso1'), askw, _ws1(ex, st, 'wso2'),   # noqa: E731
+                                                                  _ident(ex, st, 'qident', [q_])], g)
+    sel0 = _mk_leaf(ex, st, None, 'kw_select', (T.Keyword.DML,), normalized='SELECT')
+    frm0 = _mk_leaf(ex, st, None, 'kw_from', (T.Keyword,), normalized='FROM')
+    st.ghost.update({'N': n_, 'A': a_, 'W1': w1, 'LP': lp, 'RP': rp, 'ASKW': askw})
+    return _mk_node(ex, st, sql.Statement, 'tlist', [sel0, _ws1(ex, st, 'wsA'), star, _ws1(ex, st, 'wsB'), frm0,
+                                                     _ws1(ex, st, 'wsC'), outer])
+
+
+class aliased_in_subquery:
+    """C12 "placed in a ... subquery": the pass group_aliased AS DECORATED (utils.recurse descends first) on
+    SELECT * FROM (SELECT name alias FROM t) AS q, in the shape group_as leaves behind - the derived table already is an
+    Identifier around the subquery -: the implicit alias INSIDE the subquery is attached to its name, the derived table
+    keeps its five children"""
+    exec_class = HeapExec
+    params = {'tlist': _shape_aliased_in_subquery}
+    decorated = True
+    requires = []
+    ensures = ['len(tlist.tokens) == 7', 'isinstance(tlist.tokens[6], sql.Identifier)', 'len(tlist.tokens[6].tokens) == 5',
+               'tlist.tokens[6].tokens[2] is ASKW',
+               'isinstance(tlist.tokens[6].tokens[0], sql.Parenthesis)', 'len(tlist.tokens[6].tokens[0].tokens) == 9',
+               'tlist.tokens[6].tokens[0].tokens[0] is LP', 'tlist.tokens[6].tokens[0].tokens[8] is RP',
+               'isinstance(tlist.tokens[6].tokens[0].tokens[3], sql.Identifier)',
+               'len(tlist.tokens[6].tokens[0].tokens[3].tokens) == 3',
+               'tlist.tokens[6].tokens[0].tokens[3].tokens[0] is N', 'tlist.tokens[6].tokens[0].tokens[3].tokens[1] is W1',
+               'isinstance(tlist.tokens[6].tokens[0].tokens[3].tokens[2], sql.Identifier)',
+               'tlist.tokens[6].tokens[0].tokens[3].tokens[2].tokens[0] is A']
+    raises = []
+    shape_case = True
+    serves = ['C12']
+
+
+REG.add('sqlparse.engine.grouping.group_aliased', 'shape: decorated, name alias inside (subquery) AS q', aliased_in_subquery)
+DECORATED_SHAPE_CASES = [('sqlparse.engine.grouping.group_aliased', 'shape: decorated, name alias inside (subquery) AS q')]
+
+
+def _shape_where_in_subquery(ex, st):
+    """SELECT ws * ws FROM ws Parenthesis[ ( SELECT ws Identifier ws FROM ws Identifier ws WHERE ws Identifier ) ] ws WHERE ws
+    Identifier  - a subquery with its own WHERE clause inside a statement with a WHERE clause"""
+    from contracts.sql import _mk_leaf, _mk_node, _ws1
+    T, sql = ex.W.T, ex.W.sql
+    kw = lambda word, nm, tt=T.Keyword: _mk_leaf(ex, st, None, nm, (tt,), normalized=word)   # noqa: E731
+    idn = lambda nm: _ident(ex, st, nm + '_ident', [_name(ex, st, nm)])    # noqa: E731
+    lp = _mk_leaf(ex, st, None, 'lp', (T.Punctuation,), value='(')
+    rp = _mk_leaf(ex, st, None, 'rp', (T.Punctuation,), value=')')
+    wi, wo = kw('WHERE', 'kw_where_in'), kw('WHERE', 'kw_where_out')
+    inner = [lp, kw('SELECT', 'kw_select2', T.Keyword.DML), _ws1(ex, st, 'i0'), idn('col'), _ws1(ex, st, 'i1'),
+             kw('FROM', 'kw_from2'), _ws1(ex, st, 'i2'), idn('tab'), _ws1(ex, st, 'i3'), wi, _ws1(ex, st, 'i4'), idn('cond'), rp]
+    par = lambda g: _mk_node(ex, st, sql.Parenthesis, 'subquery', inner, g)    # noqa: E731
+    star = _mk_leaf(ex, st, None, 'star', (T.Wildcard,), value='*')
+    st.ghost.update({'WIN': wi, 'WOUT': wo, 'RP': rp, 'LP': lp})
+    return _mk_node(ex, st, sql.Statement, 'tlist',
+                    [kw('SELECT', 'kw_select', T.Keyword.DML), _ws1(ex, st, 'o0'), star, _ws1(ex, st, 'o1'), kw('FROM', 'kw_from'),
+                     _ws1(ex, st, 'o2'), par, _ws1(ex, st, 'o3'), wo, _ws1(ex, st, 'o4'), idn('cond2')])
+
+
+class where_in_subquery:
+    """C13 "the Where node spans ... or else to the end of the enclosing parenthesis or statement": the pass group_where AS
+    DECORATED (utils.recurse descends first) on SELECT * FROM (SELECT c FROM t WHERE x) WHERE y: the inner WHERE clause
+    becomes a Where node that ends before the closing parenthesis, the outer one a Where node up to the end"""
+    exec_class = HeapExec
+    params = {'tlist': _shape_where_in_subquery}
+    decorated = True
+    requires = []
+    ensures = ['len(tlist.tokens) == 9', 'isinstance(tlist.tokens[8], sql.Where)', 'len(tlist.tokens[8].tokens) == 3',
+               'tlist.tokens[8].tokens[0] is WOUT',
+               'isinstance(tlist.tokens[6], sql.Parenthesis)', 'len(tlist.tokens[6].tokens) == 11',
+               'tlist.tokens[6].tokens[0] is LP', 'tlist.tokens[6].tokens[10] is RP',
+               'isinstance(tlist.tokens[6].tokens[9], sql.Where)', 'len(tlist.tokens[6].tokens[9].tokens) == 3',
+               'tlist.tokens[6].tokens[9].tokens[0] is WIN']
+    raises = []
+    shape_case = True
+    serves = ['C13']
+
+
+REG.add('sqlparse.engine.grouping.group_where', 'shape: decorated, WHERE inside a subquery and outside', where_in_subquery)
+DECORATED_WHERE_CASES = [('sqlparse.engine.grouping.group_where', 'shape: decorated, WHERE inside a subquery and outside')]
 
 
 # --------------------------------------------------------------------------------- _group_matching on explicit shapes (C09)
